@@ -203,18 +203,30 @@ func (s *Server[StateT]) handleOpenFile(ctx *Context[StateT]) error {
 }
 
 type readFileResponseWriter struct {
-	dataLength int32
-	upstream   io.Writer
+	headerSent bool
+	err        error
+	upstream   *proto.Writer
 }
 
-func (w *readFileResponseWriter) WriteHeader(length int32) { w.dataLength = length }
+func (w *readFileResponseWriter) WriteHeader(length int32) {
+	if w.headerSent {
+		return
+	}
+
+	w.headerSent = true
+	w.err = w.upstream.SendReadFileResultLen(length)
+}
 
 func (w *readFileResponseWriter) Write(p []byte) (n int, err error) {
-	if w.dataLength <= 0 {
+	if !w.headerSent {
 		return 0, fmt.Errorf("WriteHeader wasn't called")
 	}
 
-	return w.upstream.Write(p)
+	if w.err != nil {
+		return 0, w.err
+	}
+
+	return w.upstream.Writer.Write(p)
 }
 
 func (s *Server[StateT]) handleReadFile(ctx *Context[StateT]) error {
@@ -223,10 +235,12 @@ func (s *Server[StateT]) handleReadFile(ctx *Context[StateT]) error {
 		return fmt.Errorf("read read file params failed: %w", err)
 	}
 
-	return s.Handler.HandleReadFile(ctx, toRead, off, &readFileResponseWriter{
-		dataLength: -1,
-		upstream:   ctx.wr.Writer,
-	})
+	rw := &readFileResponseWriter{upstream: &ctx.wr}
+	if err := s.Handler.HandleReadFile(ctx, toRead, off, rw); err != nil {
+		return err
+	}
+
+	return rw.err
 }
 
 func (s *Server[StateT]) handleReadFileCritical(ctx *Context[StateT]) error {
